@@ -142,6 +142,14 @@ class StagePeer(object):
     def _command(self, line):
         self.commands.append(line)
         verb = line.split(b' ')[0].upper().decode('ascii', 'replace')
+        if getattr(self, 'auth_pending', False):
+            # inside an AUTH exchange every line is a response: this server keeps asking (one challenge too many for any mechanism)
+            if line.strip() == b'*':
+                self.auth_pending = False
+                self.outbuf += b'501 5.7.0 authentication cancelled\r\n'
+            else:
+                self._serve('AUTH', 'AUTH')
+            return
         if verb in ('EHLO', 'LHLO', 'HELO'):
             self.ehlo_count += 1
             stage = verb if self.ehlo_count == 1 or verb == 'HELO' else verb + '2'
@@ -152,7 +160,8 @@ class StagePeer(object):
             if code == '220':
                 self.tls = True
         elif verb == 'AUTH':
-            self._serve('AUTH', 'AUTH')
+            if self._serve('AUTH', 'AUTH') == '334':
+                self.auth_pending = True
         elif verb == 'MAIL':
             self._reset_tx()
             self.msg = self.nmail
